@@ -1015,56 +1015,48 @@ func maySucceedWithout(r *core.Run, fn *ssa.Function, group []ssa.Instruction) s
 		}
 		return false
 	}
-	check := func(ret *ssa.Return, ev ssa.Value, via *ssa.BasicBlock) string {
-		ev = core.BlockLocalLoad(ev)
-		at := ret.Block()
-		if via != nil {
-			at = via
+	for _, x := range errorExits(fn) {
+		ev := core.BlockLocalLoad(x.val)
+		at := x.ret.Block()
+		if x.via != nil {
+			at = x.via
 		}
 		if !definitelyNil(r, ev) {
 			if core.NilnessAt(ev, at) == core.NonNil {
-				return ""
+				continue
 			}
-			for _, g := range core.GuardsOf(at.Instrs[len(at.Instrs)-1]) {
+			nonNil := false
+			for _, g := range x.guards {
 				if isNil, known := core.ErrNilFact(g, ev); known && !isNil {
-					return ""
+					nonNil = true
 				}
 			}
+			if nonNil {
+				continue
+			}
+			own := false
 			for _, gi := range group {
 				c, isCall := gi.(*ssa.Call)
 				if !isCall {
 					continue
 				}
 				if e := core.ErrorResult(c); e != nil && (e == ev || carries(ev, e)) {
-					return ""
+					own = true
 				}
 				if ssa.Value(c) == ev { // `return tx.DeleteBucket(name)`
-					return ""
+					own = true
 				}
 			}
+			if own {
+				continue
+			}
 		}
-		var target ssa.Instruction = ret
-		if via != nil {
-			target = via.Instrs[len(via.Instrs)-1]
+		var target ssa.Instruction = x.ret
+		if x.via != nil {
+			target = x.via.Instrs[len(x.via.Instrs)-1]
 		}
 		if core.ReachableFromEntryAvoiding(target, inGroup) {
-			return pos(r, ret)
-		}
-		return ""
-	}
-	for ret, ev := range returnedErrors(fn) {
-		if ph, ok := ev.(*ssa.Phi); ok && ph.Block() == ret.Block() {
-			for i, e := range ph.Edges {
-				if i < len(ph.Block().Preds) {
-					if p := check(ret, e, ph.Block().Preds[i]); p != "" {
-						return p
-					}
-				}
-			}
-			continue
-		}
-		if p := check(ret, ev, nil); p != "" {
-			return p
+			return pos(r, x.ret)
 		}
 	}
 	return ""
@@ -1168,19 +1160,27 @@ func rule0214(r *core.Run) {
 		if m == nil {
 			continue
 		}
+		// the function that makes the mutation: the method, or a closure of it (a `withBucketLocked(func…)` body)
+		host := m
 		var group []ssa.Instruction
-		core.Instrs(m, func(in ssa.Instruction) {
-			if o.isMut(in) {
-				group = append(group, in)
+		for _, f := range core.Closures(m) {
+			var g []ssa.Instruction
+			core.Instrs(f, func(in ssa.Instruction) {
+				if o.isMut(in) {
+					g = append(g, in)
+				}
+			})
+			if len(g) > 0 && (len(group) == 0 || f == m) {
+				host, group = f, g
 			}
-		})
+		}
 		k := key(fname(r, m), "acknowledged only after "+o.what)
 		if len(group) == 0 {
 			r.Violated("R02.14", k, r.P.Pos(m.Pos()), "the operation no longer issues "+o.what+": it acknowledges a mutation it does not make")
 			continue
 		}
 		n++
-		bad := maySucceedWithout(r, m, group)
+		bad := maySucceedWithout(r, host, group)
 		r.Check(bad == "", "R02.14", k, r.P.Pos(m.Pos()), "every possibly-successful return passes the mutation",
 			"the operation can return a possibly-nil error at "+bad+" without "+o.what+" having been issued: it is acknowledged although nothing was changed")
 	}
